@@ -233,7 +233,28 @@ func validateAttribute(ctx *AttributeContext, att *expr.AttributeExpr, put expr.
 		return fmt.Sprintf("%s%s\n}", cond, code)
 	}
 	if expr.IsAlias(ut) {
-		return recurseValidationCode(ut.Attribute(), put, ctx, req, true, view, target, context, nil).String()
+		// An alias of an alias is validated like an alias of the innermost
+		// primitive, with the validations met on the way.
+		inner := ut.Attribute()
+		for {
+			iut, ok := inner.Type.(expr.UserType)
+			if !ok || !expr.IsAlias(iut) {
+				break
+			}
+			flat := expr.DupAtt(iut.Attribute())
+			if inner.Validation != nil {
+				if flat.Validation == nil {
+					flat.Validation = inner.Validation.Dup()
+				} else {
+					flat.Validation.Merge(inner.Validation)
+				}
+			}
+			if flat.DefaultValue == nil {
+				flat.DefaultValue = inner.DefaultValue
+			}
+			inner = flat
+		}
+		return recurseValidationCode(inner, put, ctx, req, true, view, target, context, nil).String()
 	}
 	if !hasValidations(ctx, ut) {
 		return ""
@@ -292,18 +313,7 @@ func validationCode(att *expr.AttributeExpr, attCtx *AttributeContext, req, alia
 		tval = "*" + tval
 	}
 	if alias {
-		// cast to the underlying primitive: the attribute of an alias of
-		// an alias is a user type again, whose name means nothing in the
-		// transport packages
-		base := att.Type
-		for {
-			ut, ok := base.(expr.UserType)
-			if !ok {
-				break
-			}
-			base = ut.Attribute().Type
-		}
-		tval = fmt.Sprintf("%s(%s)", base.Name(), tval)
+		tval = fmt.Sprintf("%s(%s)", att.Type.Name(), tval)
 	}
 	data := map[string]any{
 		"attribute": att,
